@@ -204,6 +204,24 @@ Definition judge (c o : sexp) : verdict :=
            | Some x => dec_list dec_utree x
            | None => x <- get "trees" c ;; dec_list dec_utree x
            end), get_Q "cutoff" c with
+    | Some ts, None =>
+      (* a non-finite threshold (nan, inf, -inf as symbols): outside [0.5,1], must be refused *)
+      match get_string "cutoff" c with
+      | Some cs =>
+        if String.eqb cs "nan" || String.eqb cs "inf" || String.eqb cs "-inf" then
+          match get_string "err" o with
+          | Some gerr =>
+            if String.eqb gerr "" then VOracle ("non-finite threshold " ++ cs ++ " accepted")
+            else if String.eqb gerr "min frequency for bipartition must be >=0.5 and <=1" then VOk true "err:cutoff:nonfinite"
+            else VCorr ("model: error min frequency for bipartition must be >=0.5 and <=1; implementation: " ++ gerr)
+          | None => match get_string "panic" o with
+                    | Some m => VOracle ("non-finite threshold " ++ cs ++ ": panic " ++ m)
+                    | None => VBad "no err in observation"
+                    end
+          end
+        else VBad "undecodable threshold"
+      | None => VBad "undecodable case"
+      end
     | Some ts, Some cutoff =>
       match judge_main ts cutoff o, get "pres" c with
       | VOk nt tg, Some _ => VOk nt (tg ++ ":preused")
